@@ -31,10 +31,25 @@ static int g_def_illegal, g_def_error;
 void secp256k1_default_illegal_callback_fn(const char *s, void *d) { (void)s; (void)d; g_def_illegal++; }
 void secp256k1_default_error_callback_fn(const char *s, void *d) {
     (void)s; (void)d; g_def_error++;
-    __CPROVER_assert(g_malloc_failed, "C20 ctx: the default error callback is reached only after an allocation failure");
+    __CPROVER_assert(g_malloc_failed, "C20 ctx: the default error callback is reached only after an allocation failure (never for a failed self test of the built-in compression)");
     __CPROVER_assume(0);   /* documented: the error callback does not return */
 }
-#define RESET() { g_malloc_n = 0; g_malloc_size = 0; g_free_n = 0; g_malloc_failed = 0; g_def_illegal = 0; g_def_error = 0; g_illegal = 0; g_error = 0; }
+/* secp256k1_selftest_sha256 reads its test vector through `static const char *input63` - a static-lifetime
+ * pointer that is NOT const-qualified (engine/static_facts.py lists it: never assigned).  DFCC gives every
+ * non-const static an arbitrary value at proof entry, so the real self test would read through an
+ * arbitrary pointer here.  In the units that reach it, calls to secp256k1_selftest_sha256 are redirected
+ * (goto-instrument --replace-calls) to this stub: the built-in compression function passes (ASSUMED; the
+ * native test-suite runs the real self test at every context creation), any other candidate is run once
+ * and gets an arbitrary verdict. */
+static int g_selftest_calls;
+int verif_selftest_stub(secp256k1_sha256_compression_function fn) {
+    uint32_t st[8] = {0}; unsigned char blk[64] = {0};
+    g_selftest_calls++;
+    if (fn == secp256k1_sha256_transform) return 1;
+    fn(st, blk, 1);
+    return nondet_bool() ? 1 : 0;
+}
+#define RESET() { g_selftest_calls = 0; g_malloc_n = 0; g_malloc_size = 0; g_free_n = 0; g_malloc_failed = 0; g_def_illegal = 0; g_def_error = 0; g_illegal = 0; g_error = 0; }
 #define BYTE(obj, k) (((const unsigned char *)&(obj))[k])
 #define GEN_END (offsetof(secp256k1_context, ecmult_gen_ctx) + sizeof(secp256k1_ecmult_gen_context))
 #define FE_SAME(a, b) ((a).n[0] == (b).n[0] && (a).n[1] == (b).n[1] && (a).n[2] == (b).n[2] && (a).n[3] == (b).n[3] && (a).n[4] == (b).n[4])
